@@ -198,6 +198,10 @@ impl Srv {
         if self.dead {
             return Err("server object already dead".into());
         }
+        if patient() {
+            // confirmation pass: give the kernel time to deliver what the harness has sent
+            std::thread::sleep(std::time::Duration::from_millis(2));
+        }
         watch_begin(&self.label);
         let server = &mut self.server;
         let events = &mut self.events;
@@ -233,9 +237,13 @@ impl Srv {
         })));
         let mut r = self.step();
         let mut n = 1;
-        while r.is_ok() && (n < 2 || polled.get() != 0) {
+        let mut idle_in_a_row = if polled.get() == 0 { 1 } else { 0 };
+        // confirmation pass: three idle steps in a row (each preceded by a pause) instead of one
+        let need = if patient() { 3 } else { 1 };
+        while r.is_ok() && (n < 2 || idle_in_a_row < need) {
             r = self.step();
             n += 1;
+            idle_in_a_row = if polled.get() == 0 { idle_in_a_row + 1 } else { 0 };
             if n > 10_000 {
                 r = Err("harness: settle did not reach quiescence in 10000 steps".into());
                 self.dead = true;
@@ -277,6 +285,19 @@ impl Client {
         }
         out
     }
+}
+
+// ---------------------------------------------------------------------------------------------
+// patient mode (second, confirming pass of a check that found candidate violations)
+
+static PATIENT: std::sync::atomic::AtomicBool = std::sync::atomic::AtomicBool::new(false);
+
+pub fn set_patient(on: bool) {
+    PATIENT.store(on, std::sync::atomic::Ordering::SeqCst);
+}
+
+pub fn patient() -> bool {
+    PATIENT.load(std::sync::atomic::Ordering::Relaxed)
 }
 
 // ---------------------------------------------------------------------------------------------
